@@ -40,6 +40,10 @@ class C09(Check):
 
     def cases(self, tier):
         yield from families.standard(tier)
+        # status bookkeeping must stay sane even when the arithmetic is far too coarse for the election (cf. C01)
+        coarse = [{'rule': 'meek', 'arithmetic': 'guarded', 'precision': 2}, {'rule': 'warren', 'arithmetic': 'guarded', 'precision': 3},
+                  {'rule': 'wigm', 'arithmetic': 'guarded', 'precision': 2}, {'rule': 'meek', 'arithmetic': 'guarded', 'precision': 1}]
+        yield from families.repo_files(coarse, max_bytes=4000 if tier == 'quick' else 10 ** 7)
 
     def check(self, case, acc):
         n, s = case['n'], case['s']
